@@ -294,3 +294,60 @@ def none_fact(name, is_none=True):
             return truth is (not is_none)
         return False
     return g
+
+
+# ---------------------------------------------------------------------- A28: in-place updates that nothing reads
+def check_dead_inplace_updates(ctx, fns, rule='A28'):
+    """`X[i] -= 1` on a local array X is bookkeeping for something that is read later (a loop test, a selection, the
+    result).  If no read of X is reachable from the update - element stores and further in-place updates of X do not
+    count as reads - the update has no effect: the quantity the surrounding repair / counting loop actually tests is
+    not the one being maintained (typically a neighbouring array with a similar name)."""
+    from ..cfg import node_exprs
+    from .common import walk_fn
+    n = 0
+    for fn in fns:
+        if isinstance(fn.node, ast.Lambda):
+            continue
+        cfg = None
+        for a in walk_fn(fn):
+            if not (isinstance(a, ast.AugAssign) and isinstance(a.target, ast.Subscript) and
+                    isinstance(a.target.value, ast.Name)):
+                continue
+            x_ = a.target.value.id
+            if x_ in fn.params or not any(
+                    isinstance(b, (ast.Assign, ast.AnnAssign)) and any(
+                        isinstance(t, ast.Name) and t.id == x_
+                        for t in (b.targets if isinstance(b, ast.Assign) else [b.target])) for b in walk_fn(fn)):
+                continue
+            cfg = cfg or build_cfg(fn)
+            node = cfg.node_of(a)
+            if node is None:
+                continue
+            # loads of X that are only the base of an element store / in-place element update are not reads
+            store_bases = set()
+            for b in walk_fn(fn):
+                tgts = b.targets if isinstance(b, ast.Assign) else ([b.target] if isinstance(b, (ast.AugAssign, ast.AnnAssign))
+                                                                    else (b.targets if isinstance(b, ast.Delete) else []))
+                for t in tgts:
+                    for s_ in ast.walk(t):
+                        if isinstance(s_, ast.Subscript) and isinstance(s_.value, ast.Name) and s_.value.id == x_:
+                            store_bases.add(id(s_.value))
+            reach = cfg.reachable([m for m, _ in node.succ])
+            read = False
+            for nd in cfg.nodes:
+                if nd.id not in reach or nd.ast is None:
+                    continue
+                for e in node_exprs(nd):
+                    if e is None:
+                        continue
+                    for y in ast.walk(e):
+                        if isinstance(y, ast.Name) and y.id == x_ and isinstance(y.ctx, ast.Load) and \
+                                id(y) not in store_bases:
+                            read = True
+            n += 1
+            ctx.touch(fn)
+            ctx.ob(rule, fkey(fn, rule, f'update-is-read:{norm(a.target)}'), read, f'{fn.module.relpath}:{a.lineno}',
+                   f'the in-place update of `{x_}` is read by something afterwards (a test, a selection, the result)',
+                   short(a) if read else f'`{short(a)}`: nothing reads `{x_}` after this statement - the loop around it '
+                                         f'tests / selects on another array, which is therefore never updated')
+    return n
